@@ -72,7 +72,7 @@ func TestVF_C20_Credential(t *testing.T) {
 		for i := range plans {
 			n := 3 + prng.Intn(3)
 			for j := 0; j < n; j++ {
-				plans[i] = append(plans[i], task{prng.Intn(6), 100000*rep + 100*i + j})
+				plans[i] = append(plans[i], task{prng.Intn(7), 100000*rep + 100*i + j})
 			}
 		}
 		var mu sync.Mutex
@@ -139,6 +139,15 @@ func TestVF_C20_Credential(t *testing.T) {
 						}
 						if !(ProofList{p}).Verify([]*gabikeys.PublicKey{kp.Pk}, ctx, nonce, false, nil) && !c11Ambiguous(p) {
 							addProblem("proof of second credential rejected")
+						}
+					case 6: // inequality statements (square decompositions are computed while proving)
+						p, err := cred.cred.CreateDisclosureProof([]int{1}, c07Stmts(true), false, ctx, nonce)
+						if err != nil {
+							addProblem("prove(range): " + err.Error())
+							continue
+						}
+						if !p.Verify(kp.Pk, ctx, nonce, false) {
+							addProblem("concurrently produced proof with range statements rejected")
 						}
 					case 5: // proof list over both credentials
 						b1, e1 := cred.cred.CreateDisclosureProofBuilder([]int{1}, nil, true)
